@@ -4,6 +4,7 @@
 package query
 
 import (
+	"slices"
 	"strings"
 
 	"github.com/apmckinlay/gsuneido/compile/ast"
@@ -125,9 +126,29 @@ func (a *updateAction) execute(th *Thread, ut *db19.UpdateTran) int {
 			r.Put(th, SuStr(col), a.exprs[i].Eval(&ctx))
 		}
 		newrec := r.ToRecord(th, hdr)
+		newrec = keepHidden(hdr, row[0].Record, newrec)
 		ut.Update(th, table, row[0].Off, newrec)
 	}
 	return len(rows)
+}
+
+// keepHidden copies the fields that the query does not show
+// (a project replaces them by "-" in the header, ToRecord writes "" for them)
+// from the old record, so an update through a project does not blank them
+func keepHidden(hdr *Header, oldrec, newrec Record) Record {
+	flds := hdr.Fields[0]
+	if !slices.Contains(flds, "-") {
+		return newrec
+	}
+	rb := RecordBuilder{}
+	for i, f := range flds {
+		if f == "-" {
+			rb.AddRaw(oldrec.GetRaw(i))
+		} else {
+			rb.AddRaw(newrec.GetRaw(i))
+		}
+	}
+	return rb.Trim().Build()
 }
 
 //-------------------------------------------------------------------
